@@ -350,7 +350,8 @@ def scenario(ctx):
                 f[rc.F_SENDER] = ds.pick([uniques[n] for n in order] + [':1.77', 'org.sim.alpha'])
             sig = gen.signature(ds, 2)
             m = rc.Msg(mt, p.next_serial(), f, sig, gen.body(ds, sig), flags=ds.pick([0, 0, 1, 2, 3]),
-                       little=not ds.flag(0.25))
+                       little=not ds.flag(0.25),
+                       order=ds.shuffle([1, 2, 3, 4, 5, 6, 7, 8]) if ds.flag(0.3) else None)
             p.send(m)
             sim.log('op', rec['name'], 'unicast', mt, f[rc.F_DESTINATION], s)
         elif k == 1:         # broadcast signal
